@@ -212,6 +212,12 @@ EXPORT int _vswprintf_s_chk(wchar_t *restrict dest, rsize_t dmax,
 #endif
         *dest = 0;
     }
+#ifdef SAFECLIB_STR_NULL_SLACK
+    else {
+        /* null the slack behind the terminator, as documented */
+        memset(&dest[ret], 0, (dmax - ret) * sizeof(wchar_t));
+    }
+#endif
 
     return ret;
 }
